@@ -43,7 +43,22 @@ def build(tier):
     mt_common = dict(COMMON, calls=mt_calls + CALLS)
     dc = Fn('mt_dcstep', 'src/lsearchk/morethuente.cpp', 'dcstep', flt='dcstep', **dict(mt_common, self_struct=None))
     mt = Fn('morethuente_do_get', 'src/lsearchk/morethuente.cpp', 'do_get', flt='lsearchk_morethuente_t::do_get', **mt_common)
+    get_ieee = Fn('lsearchk_get_ieee', 'src/lsearchk.cpp', 'get', flt='lsearchk_t::get',
+                  **dict(COMMON, members=[(r'^do_get\|.*lsearchk_t', 'lsearchk_do_get_ieee')] + MEMBERS))
+    IEEE_LEMMA = '''
+int main(void)
+{
+  double x0, t, d;
+  nv_thrown = 0;
+  nv_ieee_point(x0, t, d);
+  __CPROVER_assert(0, "nv_canary: end of harness reachable");
+  return 0;
+}
+'''
     targets = [
+        # IEEE semantics (-DNV_IEEE): the numbers of lsearchk_t::get for every double t0, NaN and +-inf included
+        Target('lsearchk_get_ieee', [get_ieee, upd(), hd()], 'specs/C07/ieee.h', replace=['lsearchk_update', 'lsearchk_do_get_ieee'], defines=['NV_IEEE']),
+        Target('ieee_point_lemma', [], 'specs/C07/ieee.h', enforce='nv_ieee_point', harness=IEEE_LEMMA, defines=['NV_IEEE'], loops=0),
         Target('morethuente_do_get', [mt, dc, upd()], H, replace=['lsearchk_update']),
         Target('lsearchk_get', [get, upd(), hd()], H, replace=['lsearchk_update', 'lsearchk_do_get'], cbmc_flags=['--sat-solver', 'cadical']),
         Target('lsearchk_update', [upd()], H),
@@ -77,6 +92,8 @@ def build(tier):
     return {
         'targets': targets, 'vcs': vcs, 'functions': fns,
         'decided': ['backtrack / LeMarechal / Fletcher(+zoom): success => advertised predicates were evaluated true on the current trial point with the returned step, and the state is the valid evaluation at x0+t*d; loops terminate (variant max_iterations - i)',
+                    'IEEE semantics, every double t0 (NaN, +-inf included): the first trial step of lsearchk_t::get is finite and in [stpmin, 1] (std::clamp mapped exactly: NaN passes through it); t *= 0.3 keeps 0 <= t <= 1, t *= 3 keeps t >= 0 and a positive step positive; the step handed to do_get is finite and > 0; every do_get and get: success => the returned step is finite, whatever the interpolation kernels return (a NaN trial step gives an invalid state, which is never accepted)',
+                    'the step handed to do_get is strictly positive in IEEE semantics (t *= 0.3 can underflow to 0: lsearchk_t::get refuses that since e2d1052; before, backtracking could return {true, 0}, see known_findings.txt)',
                     'acceptance predicates has_armijo / has_wolfe / has_strong_wolfe / has_approx_armijo / has_approx_wolfe / has_descent / dg equal the textbook formulas of the property over the reals (dot products opaque); has_descent (real body, IEEE comparisons) refuses a NaN slope and is the guard of lsearchk_t::get',
                     'step sanity over the reals: lsearchk_t::get hands do_get a step > 0 (stpmin = 10 eps in (0,1], clamp, *0.3, *3); backtracking / LeMarechal / Fletcher / zoom: every std::clamp has lower <= upper and a lower bound > 0, the bracket invariants (0 <= L < t < R; 0 <= prev < curr = t; non-negative zoom bracket) are inductive, success => returned step > 0 and state evaluated at exactly that step',
                     'lsearch_step_t::interpolate returns a finite value or else the bisection point 0.5*(u.t+v.t) for every mode; bisection and the (t, f, g) constructor equal their definitions',
@@ -85,9 +102,10 @@ def build(tier):
                     'More-Thuente and CG_DESCENT: success => the advertised conditions hold on the returned point -- More-Thuente: Armijo + strong Wolfe as formulas over the value and slope of the returned state (every return site, over the reals); CG_DESCENT: success is interval_t::converged(), i.e. valid state and (Armijo, Wolfe) or (approximate Armijo, approximate Wolfe) evaluated true on the returned state with the returned step (both were refuted before the repairs 297525f / e2bae93, see known_findings.txt)'],
         'not_decided': ['success on convex quadratics (needs the numerics of interpolation)',
                         'More-Thuente: positivity of the returned step (the fallback `stp = stx` may hand back the origin; excluding it needs the numerics of dcstep) and which of the two interpolation stages is active (the stage switch only selects the arguments of dcstep: no protocol-level consequence)',
-                        'CG_DESCENT: positivity of the returned step (secant / theta-combination numerics)',
+                        'CG_DESCENT: positivity of the returned step (secant / theta-combination numerics); its finiteness follows only by composition (success = converged() => valid tentative state at interval.step_size) because do_get is composed over the reals',
                         'finiteness proper: over the reals every value is finite; overflow of 0.5*(u.t+v.t) and NaN bracket ends are outside the real model'],
         'assumptions': ['solver_state_t::update(x) makes the state the single evaluation at x (assumed contract)',
+                        'a valid trial state has a finite step: solver_state_t::valid() demands an all-finite point and every coordinate of x0 + t*d is non-finite for a non-finite t (the scalar IEEE fact is proved: ieee_point_lemma; its lifting to Eigen vectors is assumed)',
                         'parameters lie in their registered domains (0<c1<c2<1, 1<=max_iterations<=10000, tau1>2, 0<safeguard<0.5, 0<tau2<tau3<=0.5, 0<delta<1, 0<theta<1, ro>1, 0<gamma<1, epsilon>0)',
                         'lsearch_step_t::cubic / quadratic / secant return an arbitrary double (havoc); in the protocol targets of back end A lsearch_step_t::interpolate is an arbitrary double as well',
                         'IEEE double treated as real in the pred/, steps/ and advertised/ obligations (back end B); std::isfinite is true there; machine epsilon = 2^-52; epsilon0 / epsilon1 are some positive constants',
@@ -108,6 +126,13 @@ def replay(rp):
         # More-Thuente / CG_DESCENT report success at give-up exits: concrete runs of the real line searches on f(x) = x^2
         exe = replaylib.build_with_library('replay/C07_adv_replay.cpp', 'C07_adv_replay')
         rc, so, se = replaylib.run_driver(exe, [])
+        out['runs'].append({'exit': rc, 'output': so.strip()[:6000]})
+        out['reproduced'] = rc == 1
+        return out
+    if rp['target'] == 'lsearchk_get_ieee':
+        # numbers of lsearchk_t::get in IEEE semantics: non-finite t0 and the step that underflows to 0
+        exe = replaylib.build_with_library('replay/C07_replay.cpp', 'C07_replay')
+        rc, so, se = replaylib.run_driver(exe, ['ieee'])
         out['runs'].append({'exit': rc, 'output': so.strip()[:6000]})
         out['reproduced'] = rc == 1
         return out
